@@ -1,5 +1,7 @@
 import WellenModel.Proofs.VcdStop
 import WellenModel.Proofs.TimeTable
+import WellenModel.Proofs.Mt
+import WellenModel.Props.C04
 /-!
 # C03 — multi-threaded VCD loading equals single-threaded loading
 
@@ -11,9 +13,14 @@ trusted) and appended sequentially. What is proved here:
 * `C03_chunk_events_prefix`: a chunk (stop position set) emits a prefix of the events the unbounded
   parser emits from the same start — the hand-over exit only ever cuts the stream at a timestamp;
 * `C03_append_table`: appending encoders concatenates their time tables (no entry lost or invented).
-The full statement `mt = st` for hand-over-safe bodies is NOT proved; it is checked differentially
-against the Lean model of the chunked parser on every boundary alignment (see evidence). For
-bodies that are not hand-over safe the property is false for the current code (known finding FMT).
+* `C03_mt_load_is_store_run`: a multi-threaded load that succeeds IS the store run with one encoder per chunk
+  (`Spec.runSegs`) on the operations each chunk's events denote; with `C04_store_refines_spec_all` the loaded signals are
+  therefore exactly what the abstract specification says about `ops(chunk 0) ++ split ++ ops(chunk 1) ++ …`
+  (`C03_mt_loaded_signal`).
+What is NOT proved is the purely lexical last step of `mt = st` for hand-over-safe bodies — that those per-chunk
+operations are the operations of the whole body; it is checked differentially against the Lean model of the chunked
+parser on every boundary alignment (see evidence). For bodies that are not hand-over safe the property is false for
+the current code (known finding FMT).
 -/
 namespace Wellen.VcdBody
 open Wellen.Bits Wellen.Store Wellen.Spec
@@ -153,5 +160,33 @@ theorem C03_append_table (c : Codec) (a b e : Enc) (ha : Inv a) (hb : Inv b)
       · cases h
 
 example : determineChunks 100 4 16 = [(0, 25), (25, 25), (50, 25), (75, 25)] := by decide
+
+
+/-- a multi-threaded load that succeeds is the store run (`Spec.runSegs`: one encoder per chunk, appended in order) on the
+per-chunk operations -/
+theorem C03_mt_load_is_store_run (c : Codec) (d : Decls) (rm : RealMap) (body : List Nat) (threads minChunk : Nat) (enc : Enc)
+    (h : readValues c d rm body (.multi threads minChunk) = .ok enc) :
+    ∃ seg0 rest, (determineChunks body.length threads minChunk).mapM (chunkOps d rm body) = some (seg0 :: rest) ∧
+      Spec.runSegs c d.sigTypes (seg0 ++ joinSegs rest) = some enc :=
+  mt_load_is_store_run c d rm body threads minChunk enc h
+
+/-- … hence every signal it loads is what the abstract specification denotes for those operations (any signal type) -/
+theorem C03_mt_loaded_signal (c : Codec) (d : Decls) (rm : RealMap) (body : List Nat) (threads minChunk : Nat) (enc : Enc)
+    (h : readValues c d rm body (.multi threads minChunk) = .ok enc)
+    (i : Nat) (hbm : 1 ≤ c.blockMax) (hbmax : c.blockMax ≤ 2 ^ 28) (tpe : SigType) (hw : ∀ b, tpe = .bitvec b → 1 ≤ b)
+    (hti : d.sigTypes[i]? = some tpe)
+    (hsmall : ∀ b ∈ (finish c enc).1.blocks, b.data.length < 2 ^ 36) :
+    ∃ ops, Spec.runSegs c d.sigTypes ops = some enc ∧
+      ((∀ op ∈ ops, ∀ j v r, op = .vcd j v (some r) → r.length = 8) →
+       ∀ tt sigs, Spec.run d.sigTypes ops = some (tt, sigs) →
+        ∃ sigS chg, sigs[i]? = some chg ∧
+          loadSignal (finish c enc).1 i tpe =
+            some { maxStates := sigS, times := chg.map (·.1),
+                   entries := chg.map (fun x => (kindFor tpe hw).entry sigS (encVK (kindFor tpe hw) x)) }) := by
+  obtain ⟨seg0, rest, _, hrun⟩ := mt_load_is_store_run c d rm body threads minChunk enc h
+  refine ⟨seg0 ++ joinSegs rest, hrun, ?_⟩
+  intro hreal tt sigs hspec
+  obtain ⟨sigS, chg, h1, h2, _⟩ := C04_store_refines_spec_all c i hbm hbmax d.sigTypes tpe hw hti _ hreal enc hrun tt sigs hspec hsmall
+  exact ⟨sigS, chg, h1, h2⟩
 
 end Wellen.VcdBody
